@@ -169,7 +169,7 @@ def check(cx):
     if not callers:
         cx.ok(r4, "none", "", "no DDL-reachable caller of Btree::dealloc")
     for c in callers:
-        cx.bad(r4, "caller:" + c, p.fn(c).where(), "DROP TABLE frees the tree's pages inside the transaction (D17)")
+        cx.bad(r4, "caller:" + c, p.where_of(c), "DROP TABLE frees the tree's pages inside the transaction (D17)")
 
     # ---- C15.6 recovery replays DROPs with the statement's catalog effect (same construct as C08.5) -------------------
     from . import c08
